@@ -178,6 +178,9 @@ where
         else st
       | _ => st
     let clause := fun (v : V) =>
+      -- the two recorded findings strand an address (and its index entry): only those verdicts can be theirs; a
+      -- double release or a double end is never excused (fix ac0cfa4 closed the path from the race to them)
+      if v.name != "residue" && v.name != "index-mismatch" then "none" else
       let bySess := match v.sess with
         | some n => if st1.raced.contains n then "KF-submgr-assign-race"
                     else if st1.reassigned.contains n then "KF-submgr-reassign-leak" else "none"
